@@ -88,4 +88,7 @@ WholeExceptHolder == \A k \in 1..Len(disk) : LET tg == disk[k] IN
     \/ <<tg[1], tg[2]>> \in failed
 FailedNotAcked == \A f \in failed : ~\E r \in acked : r[1] = f[1] /\ r[2] = f[2]
 NoDupNoLoss == \A r \in acked : Count(<<r[1], r[2]>>) <= r[3]
+\* (Open is the only step that discards: a failed write or flush later in the life of a truncate-mode appender takes
+\* nothing away from the file - the size-limit scenario of the replay runs in both modes and looks at the file right
+\* after the refused record.)
 =============================================================================
